@@ -300,6 +300,18 @@ class Scope:
             # propagate it
             return True
         elif self._is_suppressed(exc_val) or exc_type is None:
+            # our own interrupt may have replaced a foreign interrupt that was already
+            # unwinding the body, e.g. while suspended in the ``__aexit__`` of an
+            # inner block. If that one is still valid (not revoked), it is not ours
+            # to handle and must not get lost.
+            replaced = getattr(exc_val, '__context__', None)
+            if (
+                isinstance(replaced, CoreInterrupt)
+                and replaced
+                and not self._is_suppressed(replaced)
+            ):
+                privileged, _ = self._collect_exceptions()
+                raise privileged or replaced
             # we do not have an exception to propagate, take whatever we can get
             privileged, concurrent = self._collect_exceptions()
             if privileged is not None or concurrent is not None:
